@@ -75,6 +75,10 @@ type accSpec struct {
 	// LinkFirst: services are linked / flagged BEFORE they are added to the accessory (an application may do
 	// either; linking after adding is what the library's own constructors do)
 	LinkFirst bool `json:"link_first,omitempty"`
+	// Remove: RemoveAccessory is called for this object right after its AddAccessory (whether that was accepted or
+	// refused: an application cleaning up after a refused duplicate does exactly that); Again: it is then added again
+	Remove bool `json:"remove_after_add,omitempty"`
+	Again  bool `json:"add_again,omitempty"`
 }
 
 type recipe struct {
@@ -220,6 +224,16 @@ func build(rc *recipe) *built {
 			}
 			if err := b.cont.AddAccessory(a); err != nil {
 				b.errs[i] = err.Error()
+			}
+			if rc.Accs[i].Remove {
+				b.cont.RemoveAccessory(a)
+				b.errs[i] = "removed"
+				if rc.Accs[i].Again {
+					b.errs[i] = ""
+					if err := b.cont.AddAccessory(a); err != nil {
+						b.errs[i] = err.Error()
+					}
+				}
 			}
 		}
 	})
@@ -1038,6 +1052,9 @@ func (g *gen) randAcc(rnd *rand.Rand) accSpec {
 		}
 		a.Flags = g.randFlags(rnd, 2+len(a.Services))
 		a.LinkFirst = rnd.Intn(2) == 0
+		if rnd.Intn(10) == 0 {
+			a.Remove, a.Again = true, rnd.Intn(3) != 0
+		}
 		return a
 	}
 	a.Ctor = "New"
@@ -1061,6 +1078,9 @@ func (g *gen) randAcc(rnd *rand.Rand) accSpec {
 	}
 	a.Flags = g.randFlags(rnd, 1+n)
 	a.LinkFirst = rnd.Intn(2) == 0
+	if rnd.Intn(10) == 0 {
+		a.Remove, a.Again = true, rnd.Intn(3) != 0
+	}
 	return a
 }
 
@@ -1158,6 +1178,12 @@ func (g *gen) fixedRecipes() []*recipe {
 	out = append(out, forty)
 	// the same object twice
 	out = append(out, &recipe{Kind: "same-object-again", Accs: []accSpec{plain(0), {Ctor: "New", Readd: 1}, plain(0)}})
+	// removal: of a member, of a refused duplicate (cleanup), each followed by adding the object again
+	rm := func(id uint64, again bool) accSpec { a := plain(id); a.Remove, a.Again = true, again; return a }
+	out = append(out, &recipe{Kind: "remove-member-and-readd", Accs: []accSpec{plain(0), rm(0, true), plain(0)}})
+	out = append(out, &recipe{Kind: "remove-refused-duplicate-and-readd", Accs: []accSpec{plain(7), rm(7, true), plain(0)}})
+	out = append(out, &recipe{Kind: "remove-refused-duplicate-and-readd", Accs: []accSpec{plain(2), plain(0), rm(0, true), plain(0)}})
+	out = append(out, &recipe{Kind: "remove-refused-duplicate", Accs: []accSpec{plain(3), rm(3, false), plain(3), plain(0)}})
 	out = append(out, &recipe{Kind: "same-object-again", Accs: []accSpec{plain(1), plain(0), {Ctor: "New", Readd: 2}, plain(0)}})
 	// one accessory with the same service type sixty times, chained by links, some hidden, one primary
 	many := accSpec{Ctor: "New", Type: 8}
